@@ -383,8 +383,10 @@ class ViewsStream(Stream):
         ["v", "pop", "no-store", "!"],
         ["v", "pop", "max-age", "dflt"],
         ["v", "setitem", "", "x"],
+        ["v", "setitem", "X-Ext", "v"],
+        ["v", "pop", "X-Ext", "!"],
     ]
-    CCX = [["f"], ["h", "set", "Cache-Control", "no-cache, max-age=3"], ["h", "set", "cache-control", "private=\"a, b\", x"], ["h", "remove", "Cache-Control"], ["h", "add", "Cache-Control", "public"]]
+    CCX = [["f"], ["h", "set", "Cache-Control", "No-Cache, Max-Age=3"], ["h", "set", "Cache-Control", "no-cache, max-age=3"], ["h", "set", "cache-control", "private=\"a, b\", x"], ["h", "remove", "Cache-Control"], ["h", "add", "Cache-Control", "public"]]
     CSPV = [
         ["v", "attr", "default_src", "'self'"],
         ["v", "attr", "script_src", "'self' https://x"],
@@ -399,8 +401,12 @@ class ViewsStream(Stream):
         ["v", "setdefault", "default-src", "x"],
         ["v", "pop", "default-src", "!"],
         ["v", "pop", "img-src", "d"],
+        # letter case of directive names: what was entered is what the re-read view must hold
+        ["v", "setitem", "Script-Src", "'none'"],
+        ["v", "update", [["IMG-src", "*"], ["img-src", "data:"]]],
+        ["v", "delitem", "Script-Src"],
     ]
-    CSPX = [["f"], ["as", "none"], ["as", "str", "default-src 'self'; img-src *"], ["as", "view", [["font-src", "x y"]]], ["h", "set", "{H}", "script-src a; bad; style-src  b "], ["h", "remove", "{H}"]]
+    CSPX = [["f"], ["as", "none"], ["as", "str", "default-src 'self'; img-src *"], ["as", "view", [["font-src", "x y"]]], ["h", "set", "{H}", "script-src a; bad; style-src  b "], ["h", "remove", "{H}"], ["as", "str", "Default-Src 'self'; IMG-SRC *"], ["as", "view", [["Font-Src", "x"]]], ["h", "set", "{H}", "Script-Src a"]]
     CRV = [
         ["v", "units", "bytes"],
         ["v", "units", None],
@@ -1366,8 +1372,8 @@ PROPNAME = {"date": "Date", "expires": "Expires", "last_modified": "Last-Modifie
 
 CHECK = Check(
     prop="C16",
-    gen=["Containers", "Views", "ResponseProps", "CacheSetTable", "PyFns_Headers", "PyFns_HeaderSet", "Http", "PyFns_Http", "PyFns_Internal", "PyFns_HttpDict", "PyFns_CacheControl"],
-    modules=["WzVerif.Props.C16", "WzVerif.Props.C08T", "WzVerif.Props.C16T", "WzVerif.Props.C16T2"],
+    gen=["Containers", "Views", "ResponseProps", "CacheSetTable", "PyFns_Headers", "PyFns_HeaderSet", "Http", "PyFns_Http", "PyFns_Internal", "PyFns_HttpDict", "PyFns_CacheControl", "PyFns_Etag", "PyFns_Range", "PyFns_HttpOptions"],
+    modules=["WzVerif.Props.C16", "WzVerif.Props.C08T", "WzVerif.Props.C16T", "WzVerif.Props.C16T2", "WzVerif.Props.C06T2"],
     streams=[ViewsStream(), SharedViewsStream(), ScalarStream()],
     assumptions=[
         "C16T2 (_CacheControl._get/_set/_del_cache_value as regenerated from the source): one translation per property type (bool / int / None) with a value of that type or None; the object is its dict of str | None values; int(text) is C06's hand model pyInt",
